@@ -10,7 +10,8 @@ PROPS["C14"] = P(
     "and every storage word - plus two canary words on each side when the backend is a &mut [W] sub-slice of a larger buffer - is compared before/after outside those ranges; inside, the "
     "fields are decoded by the harness's own unpacker and compared with the model. Widths 1..=W::BITS: quick = all for u8..u32, 35-40 selected for 64/128-bit words; thorough = all. "
     "distinct_nontrivial = number of distinct cells (structure, read or write operation, exact width or edge length, garbage kind, number of spare words, backend kind) whose case really had "
-    "storage bits beyond the contents (len*width not a multiple of the word size, or at least one spare word) and, for reads, more than one element",
+    "storage bits beyond the contents (len*width not a multiple of the word size, or at least one spare word) and, for reads, more than one element"
+    ' BitFieldVec growth (resize with zero / a value, push, extend) over dirty spare storage; the sequence of chunk views is compared with the one over clean storage. ',
     dict(builds=["DBG", "UBC"]),
     dict(builds=["DBG", "UBC", "ASAN", "MIRI"], shards={"MIRI": 12, "ASAN": 8}),
     hang="violation",
